@@ -2,6 +2,7 @@
 import copy
 import hashlib
 import json
+import random
 import struct
 
 from ..framework import Prop, mk, guarded, ensure_repo_on_path
@@ -199,6 +200,116 @@ def hist_plain(args):
     return txs1, root
 
 
+def build_block(C, b):
+    """CBlock through its constructor; a declared root the constructor would refuse or replace (wrong /
+    all-zero) is put in place afterwards, as for a block received from the wire"""
+    h = b['hdr']
+    vtx = [txfmt.to_tx(t) for t in b['vtx']]
+    try:
+        blk = C.CBlock(h['ver'], h['prev'], h['merkle'], h['time'], h['bits'], h['nonce'], vtx)
+    except C.CheckBlockError:
+        blk = C.CBlock(h['ver'], h['prev'], ZERO32, h['time'], h['bits'], h['nonce'], vtx)
+    if blk.hashMerkleRoot != h['merkle']:
+        object.__setattr__(blk, 'hashMerkleRoot', h['merkle'])
+    return blk
+
+
+def run_seq(C, bitcoin, a):
+    """op c16.seq: `n` objects (B=block | Ti=immutable tx | Tm=mutable tx) built ONCE, then a sequence of
+    observations / checks on them, all in this process and in this order; outcomes joined by ','.
+    The model answers every step statelessly."""
+    n = int(a[0])
+    specs, steps = a[1:1 + n], a[1 + n:]
+
+    def make(spec):
+        if spec.startswith('B='):
+            return build_block(C, txfmt.parse_block(spec[2:]))
+        return txfmt.to_tx(txfmt.parse_tx(spec[3:]), mutable=spec.startswith('Tm='))
+    objs = [make(sp) for sp in specs]
+
+    def tx_of(i, k):
+        o = objs[int(i)]
+        return o if k == '-' else o.vtx[int(k)]
+
+    def flush():
+        # a fixed neutral prefix: whatever earlier cases left behind in the process, the history proper
+        # starts from the state these calls leave (so a replay in a fresh process reproduces)
+        bitcoin.SelectParams('regtest')
+        g = C.CoreRegTestParams.GENESIS_BLOCK
+        C.CheckBlock(g, cur_time=g.nTime)
+        C.CheckTransaction(g.vtx[0])
+        g.calc_merkle_root(), g.GetWeight(), g.vtx[0].GetTxid(), g.vtx[0].GetHash()
+        bitcoin.SelectParams('mainnet')
+        return 'f'
+
+    def run(st):
+        p = st.split(':')
+        k = p[0]
+        if k == 'flush':
+            return flush()
+        if k == 'new':
+            objs[int(p[1])] = make(specs[int(p[1])])
+            return 'n'
+        if k in ('mr', 'wr', 'gw', 's0', 's1', 'bh', 'ci', 'ctor'):
+            b = objs[int(p[1])]
+            if k == 'mr':
+                return b.calc_merkle_root().hex()
+            if k == 'wr':
+                return b.calc_witness_merkle_root().hex()
+            if k == 'gw':
+                return str(b.GetWeight())
+            if k == 's0':
+                return str(len(b.serialize(dict(include_witness=False))))
+            if k == 's1':
+                return str(len(b.serialize()))
+            if k == 'bh':
+                return b.GetHash().hex()
+            if k == 'ci':
+                return str(b.get_witness_commitment_index())
+            nb = C.CBlock(b.nVersion, b.hashPrevBlock, b.hashMerkleRoot, b.nTime, b.nBits, b.nNonce, b.vtx)
+            return 'ok:' + nb.hashMerkleRoot.hex()
+        if k == 'cb':
+            bitcoin.SelectParams(p[2])
+            C.CheckBlock(objs[int(p[1])], fCheckPoW=(p[4] == '1'), fCheckMerkleRoot=(p[5] == '1'), cur_time=int(p[3]))
+            return 'ok'
+        if k == 'ch':
+            bitcoin.SelectParams(p[2])
+            C.CheckBlockHeader(objs[int(p[1])].get_header(), fCheckPoW=(p[4] == '1'), cur_time=int(p[3]))
+            return 'ok'
+        t = tx_of(p[1], p[2])
+        if k == 'tid':
+            return t.GetTxid().hex()
+        if k == 'wid':
+            return t.GetHash().hex()
+        if k == 'tw':
+            return str(t.calc_weight())
+        if k == 'ts0':
+            return str(len(t.serialize(dict(include_witness=False))))
+        if k == 'ts1':
+            return str(len(t.serialize()))
+        if k == 'th':
+            hash(t)
+            return 'h'
+        if k == 'tc':
+            bitcoin.SelectParams(p[3])
+            C.CheckTransaction(t)
+            return 'ok'
+        if k == 'so':
+            return str(C.GetLegacySigOpCount(t))
+        if k == 'tcb':
+            return '1' if t.is_coinbase() else '0'
+        if k == 'thw':
+            return '1' if t.has_witness() else '0'
+        raise ValueError(st)
+    outs = []
+    try:
+        for st in steps:
+            outs.append(guarded(lambda st=st: run(st)))
+    finally:
+        bitcoin.SelectParams('mainnet')
+    return ','.join(outs)
+
+
 def rnd_bytes(rng, n):
     return rng.getrandbits(8 * n).to_bytes(n, 'little') if n else b''
 
@@ -264,13 +375,16 @@ class C15(Prop):
             'both serialize() lengths and every calc_weight (op c15.sizes); transactions with a history (op c15.hist): '
             'blocks built from CTransaction / fresh CMutableTransaction / deserialised objects / the same object twice / '
             'CMutableTransaction objects whose GetTxid, GetHash, hash, serialize, calc_weight were called before in-place '
-            'edits, observed when built and again after the originals are edited once more; non-trivial = every case '
+            'edits, observed when built and again after the originals are edited once more, the edited objects themselves '
+            'observed through every per-transaction observer; every ordered pair of observers on one block / one '
+            'transaction object and block histories (op c16.seq); non-trivial = every case '
             '(no default-constructed object is generated); distinct by canonical request line')
 
     def setup(self):
         ensure_repo_on_path()
+        import bitcoin
         import bitcoin.core as C
-        self.C = C
+        self.C, self.bitcoin = C, bitcoin
 
     # ---- generators -------------------------------------------------------------------------
     def generate(self, rng, tier, shard, nshards):
@@ -285,6 +399,50 @@ class C15(Prop):
         yield from self.gen_sizes(rng, big)
         yield from self.gen_histories(rng, big)
         yield from self.gen_out_of_range(rng, big)
+        yield from self.gen_sequences(tier, shard, nshards)
+
+    # ---- observer pairs on ONE object and call-after-call histories (op c16.seq); structure and content come
+    #      from a shard-independent generator, the cases are partitioned by index
+    def gen_sequences(self, tier, shard, nshards):
+        big = tier == 'thorough'
+        crng = random.Random('%s:%s:%s:seq' % (getattr(self, 'seed', 0), self.id, tier))
+        i = 0
+        hdr = dict(ver=2, prev=b'\x22' * 32, merkle=ZERO32, time=1700000000, bits=0x207fffff, nonce=3)
+        blocks = []
+        for pat, n in (('none', 3), ('mixed', 4), ('all', 2)):
+            txs = self.tx_list(crng, n, pat)
+            blocks.append('B=' + txfmt.show_block(dict(hdr=dict(hdr, merkle=ref_root([txid(t) for t in txs])), vtx=txs)))
+        txs = self.tx_list(crng, 3, 'mixed')
+        blocks.append('B=' + txfmt.show_block(dict(hdr=dict(hdr, merkle=dsha(b'wrong')), vtx=txs)))   # wrong root
+        bobs = ['mr:0', 'wr:0', 'gw:0', 's0:0', 's1:0', 'bh:0', 'ctor:0', 'tid:0:1', 'wid:0:1', 'tw:0:1', 'ts0:0:1',
+                'ts1:0:1', 'tid:0:0', 'wid:0:0']
+        for b in blocks:
+            for x in bobs:
+                for y in bobs:
+                    i += 1
+                    if i % nshards == shard:
+                        yield mk('c16.seq', 1, b, 'flush', x, y, x, tag='seq block-pair %s>%s' % (x, y))
+        tobs = ['tid:0:-', 'wid:0:-', 'tw:0:-', 'ts0:0:-', 'ts1:0:-', 'th:0:-', 'thw:0:-', 'tcb:0:-']
+        for cls in ('Ti=', 'Tm='):
+            for wit in ('none', 'empty', 'some', 'all'):
+                t = cls + txfmt.show_tx(small_tx(crng, wit, nin=2, nout=2))
+                for x in tobs:
+                    for y in tobs:
+                        i += 1
+                        if i % nshards == shard:
+                            yield mk('c16.seq', 1, t, 'flush', x, y, x, tag='seq tx-pair %s %s>%s' % (cls, x, y))
+        # histories over several objects: the same observation on another object right after
+        allobs = [o.replace(':0', ':%d', 1) for o in bobs]
+        for _ in range(1500 if big else 150):
+            steps = ['flush']
+            for _ in range(crng.randint(3, 7)):
+                o = crng.choice(allobs) % crng.randrange(3)
+                steps.append(o)
+                if crng.random() < 0.15:
+                    steps.append('new:%d' % crng.randrange(3))
+            i += 1
+            if i % nshards == shard:
+                yield mk('c16.seq', 3, blocks[0], blocks[1], blocks[3], *steps, tag='seq block-history')
 
     def mine(self):
         self._g += 1
@@ -550,7 +708,7 @@ class C15(Prop):
     # ---- transactions with a history: caches warmed, edited in place, block built, originals edited again --
     def gen_histories(self, rng, big):
         kinds = ['imm', 'mut', 'hist', 'hist', 'hist', 'deser', 'deser-mut', 'same-imm', 'same-hist']
-        warms = ['GetTxid', 'GetHash', 'hash', 'serialize', 'calc_weight']
+        warms = ['GetTxid', 'GetHash', 'hash', 'serialize', 'serialize0', 'calc_weight']
         for rep in range(10 if big else 1):
             for n in (1, 2, 3, 4, 5, 8, 13) + ((33, 70) if big else ()):
                 for kind in kinds:
@@ -643,7 +801,7 @@ class C15(Prop):
                     'checktx': 'c16.checktx\tmainnet\t' + s_}[what]
         if c['op'] == 'c15.hist':
             txs1, root = hist_plain(c['args'])
-            return 'c15.blockobs\t' + txfmt.show_block(dict(hdr=dict(HIST_HDR, merkle=root), vtx=txs1))
+            return 'c15.histobs\t' + txfmt.show_block(dict(hdr=dict(HIST_HDR, merkle=root), vtx=txs1))
         if c['op'] in ('c15.weight', 'c15.spec.weight'):
             return c['op'] + '\t' + c['args'][1]
         return c.line
@@ -653,6 +811,8 @@ class C15(Prop):
         op, a = c['op'], c['args']
         if op == 'c15.hist':
             return self.impl_hist(c)
+        if op == 'c16.seq':
+            return run_seq(C, self.bitcoin, a)
         if op == 'c15.oor':
             what, field, value, tx = a
             value = int(value)
@@ -722,8 +882,10 @@ class C15(Prop):
 
     def agree(self, c, io, mo):
         if c['op'] == 'c15.hist':
-            # observed when built and once more after the originals were edited again: both as the model says
-            return io == mo + '#' + mo
+            # the block observed when built and once more after the originals were edited again (both as the
+            # model says), then the transaction objects themselves observed after their first edits
+            blockpart, _, txpart = mo.partition('@')
+            return io == blockpart + '#' + blockpart + '@' + txpart
         return io == mo
 
     def impl_hist(self, c):
@@ -736,7 +898,8 @@ class C15(Prop):
             for t in objs:
                 for w in warm.split(','):
                     guarded(lambda: {'GetTxid': t.GetTxid, 'GetHash': t.GetHash, 'hash': lambda: hash(t),
-                                     'serialize': t.serialize, 'calc_weight': t.calc_weight}[w]())
+                                     'serialize': t.serialize, 'calc_weight': t.calc_weight,
+                                     'serialize0': lambda: t.serialize(dict(include_witness=False))}[w]())
         originals = None
         if kind in ('hist', 'same-hist'):
             objs = apply_dups([txfmt.to_tx(t, mutable=True) for t in parse_txs(txs_s)], dup)
@@ -766,11 +929,20 @@ class C15(Prop):
         if [norm(txfmt.from_tx(o)) for o in objs] != [norm(t) for t in txs1]:
             return 'harness:field-values-differ'
         h = HIST_HDR
+
+        def tx_objects():
+            # the objects handed to the constructor, observed through every per-transaction observer AFTER their
+            # edits (their caches were warmed BEFORE): a memo that survives an edit shows here
+            return '|'.join(';'.join([guarded(lambda: o.GetTxid().hex()), guarded(lambda: o.GetHash().hex()),
+                                      guarded(lambda: str(o.calc_weight())),
+                                      guarded(lambda: str(len(o.serialize(dict(include_witness=False))))),
+                                      guarded(lambda: str(len(o.serialize())))]) for o in objs)
         try:
             blk = C.CBlock(h['ver'], h['prev'], root, h['time'], h['bits'], h['nonce'], objs)
         except Exception as e:  # noqa: BLE001
             r = guarded(lambda: (_ for _ in ()).throw(e))
-            return r + '#' + r
+            return r + '#' + r + '@' + tx_objects()
+        txobs = tx_objects()
 
         def observe():
             r1 = guarded(lambda: blk.calc_merkle_root().hex())
@@ -794,7 +966,7 @@ class C15(Prop):
             # lists are edited)
             top = ('lock', 'ver', 'wit', 'addin', 'addout', 'delin', 'delout')
             apply_objs(originals, [e for e in e2 if e[1] < len(originals) and (kind != 'deser-mut' or e[0] in top)])
-        return o1 + '#' + observe()
+        return o1 + '#' + observe() + '@' + txobs
 
     def nontrivial(self, c, io):
         return any(a for a in c['args'])
